@@ -78,9 +78,15 @@ def builtin_glue(needs_module: str) -> Callable[[InstallGlueFn], InstallGlueFn]:
 
     def decorate(fn: InstallGlueFn) -> InstallGlueFn:
         assert needs_module not in builtin_glue_pending
-        if needs_module in sys.modules and "sphinx" not in sys.modules:
+        if (
+            needs_module in sys.modules
+            and "sphinx" not in sys.modules
+            and not hasattr(sys.modules[needs_module], "_stackscope_install_glue_")
+        ):
             fn()
         else:
+            # Not loaded yet, or it provides glue of its own: let
+            # add_glue_as_needed() sort out which one to run
             builtin_glue_pending[needs_module] = fn
         return fn
 
